@@ -114,6 +114,7 @@ Definition g_sunos_thread (meth site : string) : bool := seq meth "threads" && s
 Definition g_aix_cwd (meth site : string) : bool := seq meth "cwd" && seq site "os.readlink".
 Definition g_aix_io (meth site : string) : bool := seq meth "io_counters" && seq site "proc_io_counters".
 Definition g_win_ppid (meth : string) : bool := seq meth "ppid".
+Definition g_win_mmaps_dos (meth site : string) : bool := seq meth "memory_maps" && seq site "QueryDosDevice".
 Definition g_win_partial (meth : string) : bool := seq meth "cmdline" || seq meth "environ" || seq meth "cwd".
 Definition g_win_fallback (meth site : string) : bool :=
   ((seq meth "memory_info" || seq meth "memory_full_info") && seq site "proc_memory_info")
@@ -147,7 +148,10 @@ Definition inner (p : plat) (meth site : string) (c : cond) : option res :=
       else if g_aix_io meth site && negb (pid_exists AIX c) then Some RNoSuch
       else None
   | Windows =>
-      if is_partial e && g_win_partial meth then Some RDenied                  (* retry_error_partial_copy *)
+      (* memory_maps() is a generator: only proc_memory_maps() sits inside its try/except, the
+         convert_dos_path() -> QueryDosDevice() of each row does not *)
+      if g_win_mmaps_dos meth site then Some RRaw
+      else if is_partial e && g_win_partial meth then Some RDenied             (* retry_error_partial_copy *)
       else if is_permission_err e && g_win_fallback meth site then Some RVal   (* slower route through proc_info *)
       else None
   | _ => None
@@ -169,7 +173,7 @@ Definition pair_outcome (p : plat) (meth site1 site2 : string) (e1 e2 : err) (s 
   | Windows =>
       if g_win_cmdline_pair meth site1 site2 then
         if is_permission_err e1 then (if is_partial e2 then RDenied else wrap Windows c2)   (* second query inside the retry decorator *)
-        else method_outcome p meth "proc_cmdline" c1
+        else method_outcome p meth site1 c1
       else if g_win_fallback meth site1 && seq site2 "proc_info" then
         if is_permission_err e1 then wrap Windows c2 else method_outcome p meth site1 c1
       else method_outcome p meth site1 c1
@@ -212,6 +216,7 @@ Inductive src :=
 | SSlot (fn : string) (idx : Z) (mul : Z)     (* slot idx of the record native function fn returned, times mul *)
 | SConst (z : Z)
 | SNone
+| SFun (fn : string) (idxs : list Z)          (* a function of exactly these slots of fn's row (enum, address pair, hex ...) *)
 | SUnknown.
 
 Inductive shape := Scalar | Tuple | ListOf.
@@ -251,6 +256,7 @@ Definition eval_src (rs : records) (s : src) : outcome fval :=
       end
   | SConst z => Val (FZ z)
   | SNone => Val FNone
+  | SFun _ _ => OutOfModel
   | SUnknown => OutOfModel
   end.
 
@@ -272,6 +278,8 @@ Record pblock := { pb_plat : plat; pb_meth : string; pb_site1 : string; pb_site2
 Record rrow := { rr_meth : string; rr_site : string; rr_k : Z; rr_then : option err; rr_out : gout }.
 (* wait(0) without a failing call *)
 Record wrow := { wr_plat : plat; wr_scen : wscen; wr_state : pstate; wr_out : gout }.
+(* field list of the named tuple a system-wide front-end function returns on a platform *)
+Record sfrow := { sf_plat : plat; sf_fn : string; sf_type : string; sf_fields : list string }.
 Record smap := { m_plat : plat; m_name : string; m_slots : list (string * Z) }.
 Record names := { nm_plat : plat; nm_all : list string; nm_dir : list string; nm_methods : list string }.
 
@@ -298,15 +306,18 @@ Definition prefix_from_mask (w m : Z) : option Z :=
   | Some p => Some p
   | None => find_prefix w (2 ^ w - 1 - m) (S (Z.to_nat w)) 0      (* host mask *)
   end.
+Definition bcast_prefix (w a k : Z) : Z :=
+  let nm := netmask_of w k in Z.lor (Z.land a nm) (2 ^ w - 1 - nm).   (* network_address | hostmask *)
 Definition broadcast (w a m : Z) : option Z :=
   match prefix_from_mask w m with
-  | Some p => let nm := netmask_of w p in
-              Some (Z.lor (Z.land a nm) (2 ^ w - 1 - nm))          (* network_address | hostmask *)
+  | Some p => Some (bcast_prefix w a p)
   | None => None
   end.
 
-(* net_if_addrs() row post-processing.  fam: 0 = AF_INET, 1 = AF_INET6, 2 = AF_LINK, 3 = other *)
-Record nicrow := { n_fam : Z; n_addr : bytes; n_addrz : Z; n_maskz : option Z; n_bcast : option Z }.
+(* net_if_addrs() row post-processing.  fam: 0 = AF_INET, 1 = AF_INET6, 2 = AF_LINK, 3 = other.
+   The netmask text of the raw row: none, an address ("255.255.255.0", "ffff:ffff::"), or a prefix length ("24"). *)
+Inductive maskt := MNone | MAddr (m : Z) | MPrefix (k : Z).
+Record nicrow := { n_fam : Z; n_addr : bytes; n_addrz : Z; n_mask : maskt; n_bcast : option Z }.
 Record nicprobe := { np_plat : plat; np_in : nicrow; np_addr_out : bytes; np_bcast_out : option Z }.
 Definition post_addr (p : plat) (r : nicrow) : bytes :=
   if n_fam r =? 2 then pad_mac (match p with Windows => 45 | _ => 58 end) (n_addr r) else n_addr r.
@@ -314,15 +325,21 @@ Definition post_bcast (p : plat) (r : nicrow) : option Z :=
   match p with
   | Windows =>
       if n_fam r =? 0 then
-        match n_maskz r with
-        | None => n_bcast r                                   (* not addr.netmask -> None -> kept *)
-        | Some m => match broadcast 32 (n_addrz r) m with
-                    | Some b => Some b
-                    | None => n_bcast r                       (* ipaddress raised: debug(), kept *)
-                    end
+        match n_mask r with
+        | MNone => n_bcast r                                  (* not addr.netmask -> None -> kept *)
+        | MAddr m => match broadcast 32 (n_addrz r) m with
+                     | Some b => Some b
+                     | None => n_bcast r                      (* ipaddress raised: debug(), kept *)
+                     end
+        | MPrefix k => if (0 <=? k) && (k <=? 32) then Some (bcast_prefix 32 (n_addrz r) k) else n_bcast r
         end
-      (* AF_INET6: the native layer gives no netmask; a mask in address form makes
-         ipaddress.IPv6Network raise (only a prefix length is accepted) -> kept *)
+      else if n_fam r =? 1 then
+        match n_mask r with
+        | MPrefix k => if (0 <=? k) && (k <=? 128) then Some (bcast_prefix 128 (n_addrz r) k) else n_bcast r
+        (* ipaddress.IPv6Network accepts a prefix length only: a mask in address form (the form psutil
+           itself reports IPv6 netmasks in on every other platform) makes it raise -> kept *)
+        | _ => n_bcast r
+        end
       else n_bcast r
   | _ => n_bcast r
   end.
